@@ -452,3 +452,5 @@ def run(ctx, prog):
     ctx.floor('enumerate(self.partitions) loops', n3, 1)
     from .. import kernelvalues as _kv
     ctx.floor('kernel value cases interpreted', _kv.clause(ctx, prog, 'C12-D7', ('partitioned', 'template')), 20)
+    from .. import kernelvalues as _kvm
+    ctx.floor('MIA kernel cases interpreted', _kvm.mia_clause(ctx, prog, 'C12-D8'), 8)
